@@ -1,6 +1,6 @@
 (** Pinned statements of the C15 property theorems: compiled on every check, so a theorem cannot be
     weakened silently. *)
-From V Require Import Base.Util Gql.Ast C15.Model C15.Spec C15.Properties.
+From V Require Import Base.Util Gql.Ast C15.Model C15.Spec C15.Corr C15.Properties.
 
 Check (C15_routes_agree : forall st meta M D,
   model_ok M = true ->
@@ -58,3 +58,11 @@ Check (C15_printers_see_same_types : forall st meta M D,
       option_map norm_typedef (get_type (ast_to_type_system (type_system_to_ast Sj)) n)
       = option_map (fun d => strip_typedef (norm_typedef d)) (get_type (ast_to_type_system D) n)).
 Print Assumptions C15_printers_see_same_types.
+Check (C15_schema_equiv_b_sound : forall vis a b, schema_equiv_b vis a b = true -> schema_equiv_on vis a b).
+Print Assumptions C15_schema_equiv_b_sound.
+Check (C15_doc_equiv_b_sound : forall D D0, doc_equiv_b D D0 = true -> doc_equiv D D0).
+Print Assumptions C15_doc_equiv_b_sound.
+Check (C15_certified_case : forall st meta M D J out_sdl out_json,
+  agree (CRoutes false true st meta M D J out_sdl out_json) = true ->
+  exists Sj, out_json = Ok Sj /\ schema_equiv_on (vis_of M) Sj out_sdl).
+Print Assumptions C15_certified_case.
